@@ -17,7 +17,9 @@ RULE = ('keys as C13 x both compression settings x messages of length {0,1,252,2
         'UTF-8 and newlines: GetHash()==dSHA256(varstr(magic)||varstr(utf8(message))) by the reference encoder; base64 signature '
         'decodes to 65 bytes, header in 27..34 with compression bit; reference recovery from (r,s,recid) reproduces exactly the '
         'signer\'s public key, (r,s) verifies under the reference and is low-S; VerifyMessage is True for the signer\'s P2PKH address and '
-        'False (no exception) for the other-compression twin, 3 other keys, and the message changed/appended/truncated/case-flipped. '
+        'False (no exception) for the other-compression twin, 3 other keys, and the message changed/appended/truncated/case-flipped; '
+        'for 7 signatures NOT made by the library (reference RFC 6979 signer; other flag, wrong recid, high-S twins, random r) '
+        'VerifyMessage is True exactly for the address of the key reference recovery yields (False or an exception when none). '
         'non-trivial = non-ASCII or >=253-byte message or a negative pair; distinct by digest of (secret, flag, message)')
 ASSUMPTIONS = ['reference secp256k1 recovery (SEC1 4.1.6) and Base58Check; mainnet address prefix', 'signature bytes stored in the replay case']
 SELFTEST_NOTE = 'secp256k1 / recovery vectors'
@@ -89,7 +91,36 @@ def check_case(case):
         if r2 is not False:
             raise Violation('verify/%s-true' % tag, 'VerifyMessage returned %r for the %s address' % (r2, tag))
         cls.append('neg:' + tag)
-    return {'nt': True, 'evals': 4 + len(negs), 'cls': cls, 'digest': digest([x, comp, text[:64], len(text)])}
+    # signatures NOT made by the library (reference RFC 6979 signer + perturbations): VerifyMessage must agree with reference
+    # recovery - true exactly for the P2PKH address of the key recovered under the header's recid, in the header's encoding
+    nf = 0
+    r0, s0 = secp.sign(x, want)
+    rid = next((i for i in (0, 1) if secp.recover(want, r0, s0, i) == P), None)
+    if rid is not None:
+        rr = int.from_bytes(H.sha256(raw[1:33] + b'r'), 'big') % n or 1
+        forms = [('ref', rid, comp, r0, s0), ('ref-otherflag', rid, not comp, r0, s0), ('ref-wrong-recid', rid ^ 1, comp, r0, s0),
+                 ('ref-high-s', rid ^ 1, comp, r0, n - s0), ('ref-high-s-same-recid', rid, comp, r0, n - s0),
+                 ('rand-r', case.get('frid', 0) & 1, comp, rr, s0), ('lib-r-ref-s', (hdr - 27) & 3, comp, r, s0)]
+        for tag, i, c, fr, fs in forms:
+            fsig = base64.b64encode(bytes([27 + i + (4 if c else 0)]) + fr.to_bytes(32, 'big') + fs.to_bytes(32, 'big')).decode('ascii')
+            Q2 = secp.recover(want, fr, fs, i)
+            exp_own = Q2 is not None and Q2 == P and c == comp
+            res = libx.call('verifymessage-foreign-' + tag, VerifyMessage, a, msg, fsig, allowed=(Exception,) if Q2 is None else ())
+            nf += 1
+            if Q2 is None:
+                if res[0] == 'ok' and res[1] is not False:
+                    raise Violation('verify/unrecoverable-true', 'VerifyMessage returned %r for a signature (%s) from which no key can be recovered' % (res[1], tag))
+                cls.append('foreign:unrecoverable:' + ('false' if res[0] == 'ok' else type(res[1]).__name__))
+                continue
+            if res[1] is not exp_own:
+                raise Violation('verify/foreign-%s' % tag, 'VerifyMessage(own address, %s signature) = %r, reference recovery says %s' % (tag, res[1], exp_own))
+            qaddr = b58.check_encode(0, H.h160(secp.ser_pub(Q2, c)))
+            r3 = libx.call('verifymessage-foreign-recovered-' + tag, VerifyMessage, P2PKHBitcoinAddress(qaddr), msg, fsig)[1]
+            if r3 is not True:
+                raise Violation('verify/foreign-recovered-%s' % tag, 'VerifyMessage(address of the key the reference recovers, %s signature) = %r' % (tag, r3))
+            cls.append('foreign:%s:%s' % (tag, exp_own))
+            nf += 1
+    return {'nt': True, 'evals': 4 + len(negs) + nf, 'cls': cls, 'digest': digest([x, comp, text[:64], len(text)])}
 
 
 texts = st.one_of(st.sampled_from(['', 'a', 'hello', 'line\nbreak', 'héllo wörld ✓', '日本語のメッセージ', 'Ünïcödé' * 40, 'é' * 126, 'é' * 127, 'é' * 200]),
